@@ -344,7 +344,7 @@ Qed.
 Lemma merge_inv_step cf s e : merge_inv cf s -> merge_inv cf (step cf s e).
 Proof.
   intros Hinv Hm0. specialize (Hinv Hm0).
-  destruct e as [m|k id|id| | |b|]; cbn [step].
+  destruct e as [m|k id|id| | |b| | |did]; cbn [step].
   - unfold publish. destruct (Nat.eqb _ 0); [exact Hinv|].
     rewrite rtmp_loop_spec. rewrite Hinv.
     assert (Hm1 : (if anytrig (g_rtmp_cache s) (is_video_key_nalu m) (g_subs s) then [] else @nil label) = [])
@@ -355,6 +355,8 @@ Proof.
   - destruct (partition _ _). exact Hinv.
   - destruct (g_in s); exact Hinv.
   - destruct (negb (g_in s)); [exact Hinv|]. destruct (partition _ _). exact Hinv.
+  - exact Hinv.
+  - exact Hinv.
   - exact Hinv.
   - exact Hinv.
 Qed.
@@ -384,7 +386,7 @@ Theorem step_admitted cf s e id c :
 Proof.
   intros Hinv Hfind Hadm Hkts Hstay.
   destruct (find_idp_some _ _ _ Hfind) as [Hin Hid].
-  destruct e as [m|k jid|lid| | |b|]; cbn [step live_units].
+  destruct e as [m|k jid|lid| | |b| | |did]; cbn [step live_units].
   - destruct (Nat.eqb (length (rm_payload m)) 0) eqn:Hne.
     + exists c. unfold publish. rewrite Hne. unfold find_sub. cbn [g_subs].
       repeat split; try assumption. unfold vout, pending_for. cbn [g_merge]. now rewrite app_nil_r.
@@ -416,6 +418,15 @@ Proof.
     { unfold ts_step. destruct (c_kind c); try reflexivity. congruence. }
     rewrite Hts. repeat split; try assumption. unfold vout, pending_for. cbn [g_merge]. now rewrite app_nil_r.
   - exists c. unfold find_sub. cbn [g_subs].
+    assert (Hid1 : forall x : consumer, c_id (if ckind_eqb (c_kind x) KTs && negb (c_fresh x) then c_append x [LPat (g_next_pat s)] else x) = c_id x)
+      by (intro x; destruct (ckind_eqb (c_kind x) KTs && negb (c_fresh x)); reflexivity).
+    rewrite (find_map_id _ id (g_subs s) Hid1). unfold find_sub in Hfind. rewrite Hfind. cbn [option_map].
+    assert (Hc : (if ckind_eqb (c_kind c) KTs && negb (c_fresh c) then c_append c [LPat (g_next_pat s)] else c) = c).
+    { destruct (c_kind c); try reflexivity. congruence. }
+    rewrite Hc. repeat split; try assumption. unfold vout, pending_for. cbn [g_merge]. now rewrite app_nil_r.
+  - exists c. unfold find_sub. cbn [g_subs].
+    repeat split; try assumption. unfold vout, pending_for. cbn [g_merge]. now rewrite app_nil_r.
+  - exists c. unfold find_sub. cbn [g_subs].
     repeat split; try assumption. unfold vout, pending_for. cbn [g_merge]. now rewrite app_nil_r.
 Qed.
 
@@ -442,7 +453,7 @@ Fixpoint attached (id : N) (k : ckind) (h : list ev) : Prop :=
 Lemma g_next_step cf s e :
   g_next (step cf s e) = match e with EvPublish _ => S (g_next s) | _ => g_next s end.
 Proof.
-  destruct e as [m|k id|id| | |b|]; cbn [step].
+  destruct e as [m|k id|id| | |b| | |did]; cbn [step].
   - unfold publish. destruct (Nat.eqb _ 0); [reflexivity|].
     rewrite rtmp_loop_spec.
     destruct (has_kind KRtmp _); [destruct (cf_merge cf =? 0); [|destruct (cf_merge cf <=? _)]|]; reflexivity.
@@ -450,6 +461,8 @@ Proof.
   - destruct (partition _ _); reflexivity.
   - destruct (g_in s); reflexivity.
   - destruct (negb (g_in s)); [reflexivity|]. destruct (partition _ _); reflexivity.
+  - reflexivity.
+  - reflexivity.
   - reflexivity.
   - reflexivity.
 Qed.
@@ -507,7 +520,7 @@ Qed.
 Definition same_but_subs (s s' : gstate) : Prop :=
   g_next s = g_next s' /\ g_next_ts s = g_next_ts s' /\ g_next_pat s = g_next_pat s' /\
   g_rtmp_cache s = g_rtmp_cache s' /\ g_flv_cache s = g_flv_cache s' /\ g_ts_cache s = g_ts_cache s' /\
-  g_patpmt s = g_patpmt s' /\ g_merge s = g_merge s' /\ g_merge_size s = g_merge_size s' /\
+  g_patpmt s = g_patpmt s' /\ g_sdp s = g_sdp s' /\ g_next_sdp s = g_next_sdp s' /\ g_merge s = g_merge s' /\ g_merge_size s = g_merge_size s' /\
   g_video_known s = g_video_known s' /\ Permutation (g_subs s) (g_subs s') /\
   Permutation (g_gone s) (g_gone s') /\ g_rec_open s = g_rec_open s' /\ g_rec s = g_rec s' /\ g_in s = g_in s'.
 
@@ -533,8 +546,8 @@ Qed.
 Theorem step_order_independent cf s s' e :
   same_but_subs s s' -> same_but_subs (step cf s e) (step cf s' e).
 Proof.
-  intros (H1 & H2 & H3 & H4 & H5 & H6 & H7 & H8 & H9 & H10 & Hp & Hg & H11 & H12 & H13).
-  destruct e as [m|k id|id| | |b|]; cbn [step].
+  intros (H1 & H2 & H3 & H4 & H5 & H6 & H7 & Hs1 & Hs2 & H8 & H9 & H10 & Hp & Hg & H11 & H12 & H13).
+  destruct e as [m|k id|id| | |b| | |did]; cbn [step].
   - unfold publish. rewrite <- H1. destruct (Nat.eqb _ 0).
     + unfold same_but_subs. cbn. repeat split; try assumption; congruence.
     + rewrite !rtmp_loop_spec. rewrite <- H4, <- H5, <- H8, <- H9, <- H10, <- H11, <- H12.
@@ -543,7 +556,7 @@ Proof.
       assert (Hp1 : Permutation (map F1 (g_subs s)) (map F1 (g_subs s'))) by (now apply Permutation_map).
       rewrite <- (has_kind_perm _ _ _ Hp1).
       destruct (has_kind KRtmp _); [destruct (cf_merge cf =? 0); [|destruct (cf_merge cf <=? _)]|];
-        unfold same_but_subs; cbn [g_next g_next_ts g_next_pat g_rtmp_cache g_flv_cache g_ts_cache g_patpmt g_merge
+        unfold same_but_subs; cbn [g_next g_next_ts g_next_pat g_rtmp_cache g_flv_cache g_ts_cache g_patpmt g_sdp g_next_sdp g_merge
                                    g_merge_size g_video_known g_subs g_gone g_rec_open g_rec g_in];
         repeat split; try assumption; try congruence;
         repeat apply Permutation_map; try assumption.
@@ -562,5 +575,8 @@ Proof.
       unfold same_but_subs. cbn. repeat split; try assumption; try congruence. now apply Permutation_app.
   - unfold feed_ts. unfold same_but_subs. cbn. rewrite <- H2, <- H6, <- H7.
     repeat split; try assumption; try congruence. now apply Permutation_map.
+  - unfold same_but_subs. cbn. rewrite <- H3. repeat split; try assumption; try congruence. now apply Permutation_map.
   - unfold same_but_subs. cbn. repeat split; try assumption; congruence.
+  - unfold same_but_subs. cbn. rewrite <- Hs1. repeat split; try assumption; try congruence.
+    apply Permutation_app_tail. assumption.
 Qed.
